@@ -99,7 +99,7 @@ Ltac res_cases :=
   match goal with
   | |- context [match ?r with Ok _ => _ | Panic => _ end] =>
       lazymatch r with
-      | qadd _ _ _ => idtac | qsub _ _ _ => idtac | iadd _ _ => idtac | isub _ _ => idtac
+      | qadd _ _ _ => idtac | qsub _ _ _ => idtac | iadd _ _ => idtac | isub _ _ => idtac | uadd _ _ _ => idtac | usub _ _ _ => idtac
       | assert_ok _ _ _ => idtac | assert_not_ok _ _ _ => idtac | snew _ _ _ _ => idtac
       end;
       let E := fresh "E" in destruct r eqn:E; cbn; unfold arith_i; cbn; try rewrite E; try reflexivity
@@ -184,3 +184,50 @@ Lemma flatten_tbind {F} {NF : Num F} (t : tree (@outcome F)) k :
                         | Panic => Panic
                         end.
 Proof. unfold tbind. rewrite flatten_tmap. destruct (flatten t) as [[]|]; reflexivity. Qed.
+
+(* ---------------------------------------------------------------------------------------------------------------
+   Running the body of a value-layer impl (tools/gen_ops.py): the result as a value of the operator table. *)
+Section RunOps.
+Context {F : Type} {NF : Num F}.
+Variable c : cfg.
+Definition base_env (n : nat) (en : @env F) : @env F := skipn (List.length en - n) en.
+Definition rv_of_m (m : option (@mval F)) : @rv F :=
+  match m with Some v => match lower v with Some w => RVal w | None => RType end | None => RType end.
+Definition run_with (k : @mval F -> @env F -> @rv F) (g : @mexpr F) (en0 : @env F) : @rv F :=
+  match flatten (eval c g en0) with
+  | Ok (ONorm v en) | Ok (ORet v en) => k v (base_env (List.length en0) en)
+  | Ok OPanic => RPanic
+  | Ok OType => RType
+  | Panic => RPanic
+  end.
+(* the value of the body *)
+Definition run_val := run_with (fun v _ => rv_of_m (Some v)).
+(* `&mut self` functions returning (): the receiver afterwards *)
+Definition run_self := run_with (fun _ en => rv_of_m (lookup "self" en)).
+(* TryFrom: Ok(x) / Err(()) as the table's option *)
+Definition run_try := run_with (fun v _ => match v with
+                                           | MOk w => rv_of_m (Some (MSome w))
+                                           | MErr _ => RVal VNone
+                                           | _ => RType end).
+(* State setters: the receiver afterwards and whether Ok(()) was returned *)
+Definition run_setter := run_with (fun v en =>
+  match lookup "self" en, v with
+  | Some (MV s), MOk _ => RVal (VPair s (VB true))
+  | Some (MV s), MErr _ => RVal (VPair s (VB false))
+  | _, _ => RType
+  end).
+End RunOps.
+
+Ltac split_ops :=
+  repeat match goal with
+  | x : command |- _ => destruct x
+  | x : pd |- _ => destruct x
+  | x : bool |- _ => destruct x
+  end.
+(* as mr_norm, with the quantity operators unfolded down to the unit assertion (the base impls build their result field by field) *)
+Ltac ops_norm :=
+  lazy -[isub iadd imul idiv ineg assert_ok assert_not_ok q_of_time q_of_dint eq_assume_true eq_assume_false
+         Z.gtb Z.ltb Z.geb Z.max Z.min].
+Ltac ops_tac :=
+  intros; split_ops; unfold run_val, run_self, run_try, run_setter, run_with;
+  repeat (ops_norm; mr_split); ops_norm; try reflexivity.
